@@ -19,6 +19,7 @@ PLAN = dict(
                 "and the over-rejection direction is covered by the metamorphic unknown-section relation."),
     level_note=NOTE_BASE,
     runs=[
+        dict(name="conc", run="^(TestConcStructured|TestConcUnknownSection)$", checks=(400, 20000), shards=(2, 8), timeout=(400, 3600), race=True),
         dict(name="sweep", run="^(TestExhaustiveTruncFlip|TestStatusSweep|TestCorpus)$", timeout=(300, 3600)),
         dict(name="structured", run="^TestPropStructured$", checks=(4000, 500000), shards=(2, 16), timeout=(300, 3600)),
         dict(name="unknown", run="^TestPropUnknownSection$", checks=(1500, 150000), shards=(1, 4), timeout=(300, 3600)),
